@@ -42,6 +42,7 @@ type jsonCase struct {
 	Docs    []string `json:"docs,omitempty"`
 	Scen    *jsonVec `json:"scenario,omitempty"`
 	Nils    int      `json:"nils,omitempty"`
+	Prefill int      `json:"prefill,omitempty"` // the interfaces of the target hold pointers before the decode (variant)
 	At      int      `json:"at,omitempty"` // Decoder(refill): how many bytes of the document arrive with the first fill of the buffer
 }
 
@@ -433,8 +434,75 @@ func c02Docs(shape *jShape, seed int64, r *rng, tier string) []string {
 	return docs
 }
 
+// prefillAny puts a non-nil pointer into every interface the target can reach (allocating one element of
+// nil pointers, slices and maps on the way): encoding/json decodes through such pointers
+func prefillAny(v reflect.Value, variant, depth int) {
+	if depth > 6 {
+		return
+	}
+	switch v.Kind() {
+	case reflect.Interface:
+		if v.NumMethod() != 0 || !v.CanSet() {
+			return
+		}
+		switch variant % 6 {
+		case 0:
+			s := "old"
+			v.Set(reflect.ValueOf(&s))
+		case 1:
+			m := map[string]any{"old": 1.0}
+			v.Set(reflect.ValueOf(&m))
+		case 2:
+			l := []any{"old"}
+			v.Set(reflect.ValueOf(&l))
+		case 3:
+			var inner any = "old"
+			v.Set(reflect.ValueOf(&inner))
+		case 4:
+			v.Set(reflect.ValueOf(&struct {
+				A string
+				B any
+			}{A: "old"}))
+		default:
+			f := 1.5
+			v.Set(reflect.ValueOf(&f))
+		}
+	case reflect.Pointer:
+		if v.IsNil() && v.CanSet() {
+			v.Set(reflect.New(v.Type().Elem()))
+		}
+		if !v.IsNil() {
+			prefillAny(v.Elem(), variant, depth+1)
+		}
+	case reflect.Struct:
+		for i := 0; i < v.NumField(); i++ {
+			prefillAny(v.Field(i), variant+i, depth+1)
+		}
+	case reflect.Slice:
+		if v.CanSet() && v.Type().Elem().Kind() != reflect.Uint8 {
+			v.Set(reflect.MakeSlice(v.Type(), 1, 2))
+			prefillAny(v.Index(0), variant, depth+1)
+		}
+	case reflect.Array:
+		for i := 0; i < v.Len(); i++ {
+			prefillAny(v.Index(i), variant+i, depth+1)
+		}
+	case reflect.Map:
+		if v.CanSet() && v.Type().Key().Kind() == reflect.String {
+			v.Set(reflect.MakeMap(v.Type()))
+			e := reflect.New(v.Type().Elem()).Elem()
+			prefillAny(e, variant, depth+1)
+			v.SetMapIndex(reflect.ValueOf("a").Convert(v.Type().Key()), e)
+		}
+	}
+}
+
 func c02Decode(c *Ctx, k jsonCase, t reflect.Type, docs []string, mode string) {
 	t1, t2 := reflect.New(t), reflect.New(t)
+	if k.Prefill > 0 {
+		prefillAny(t1.Elem(), k.Prefill, 0)
+		prefillAny(t2.Elem(), k.Prefill, 0)
+	}
 	for i, doc := range docs {
 		var e1, e2 error
 		b := []byte(doc)
@@ -597,6 +665,18 @@ func c02Vector(c *Ctx, raw stdjson.RawMessage) {
 		}
 		c.Case()
 		c02Decode(c, jsonCase{Shape: v.Shape, Seed: c.Seed, Docs: hist, Setting: mode}, t, hist, mode)
+	}
+	// prior state: the interfaces of the target already hold pointers (to a string, a map, a slice, an interface, a
+	// struct, a float): the decode goes through them as encoding/json's does
+	if strings.Contains(v.Shape.String(), "any") {
+		for i, doc := range docs {
+			if i%2 == 1 && c.Tier != "thorough" {
+				continue
+			}
+			mode := c02Modes[r.intn(len(c02Modes))]
+			c.Case()
+			c02Decode(c, jsonCase{Shape: v.Shape, Seed: c.Seed, Docs: []string{doc}, Setting: mode, Prefill: 1 + r.intn(6)}, t, []string{doc}, mode)
+		}
 	}
 	c.Sample(map[string]any{"shape": v.Shape.String(), "docs": len(docs), "doc": docs[len(docs)/2]})
 }
